@@ -42,6 +42,9 @@ def config_bytes(cfg, size=64):
     struct.pack_into("<H", b, 14, cfg.get("density", 0))          # screenType: orientation u8, touchscreen u8, density u16
     if size >= 28:
         struct.pack_into("<H", b, 24, cfg.get("sdk", 0))          # version: sdkVersion u16, minorVersion u16
+    if cfg.get("round"):
+        assert size >= 52, "screenLayout2 needs a ResTable_config of at least 52 bytes"
+        b[48] = cfg["round"]                                      # screenConfig2: screenLayout2 u8, colorMode u8, pad u16
     return bytes(b)
 
 
